@@ -207,6 +207,18 @@ CHECKS["C28"] = (
     "DESIGN.md §6 C28",
 )
 
+CHECKS["C23"] = (
+    "Lean 4 theorems: the six machine-readable position keys are built from one slice by the C31 conversion and therefore agree with "
+    "the definition of line/column; positions lie within the file; the conversion is injective, so the hoisting of a fix's offsets "
+    "into the violation (done when their line/column match) is sound. On real violations of all rules (fixtures, mutants, generated "
+    "SQL, jinja templates) the position is checked to lie in the file, to identify the anchor's first character for literal anchors, "
+    "and every offset is re-converted by the Lean reference walk; json/yaml/github-annotation/sarif outputs are parsed back. "
+    "Partial: the choice of anchor segment by each rule is a sampled contract.",
+    "Lean 4 proof (injectivity and range of the offset conversion) + Lean-evaluated spec on real violations",
+    "Lean kernel; standard axioms; anchor choice of rules unmodelled (contract AnchorInSource, sampled)",
+    "DESIGN.md §6 C23",
+)
+
 NOT_YET = {}
 
 
